@@ -75,15 +75,40 @@ def neg_path(s, path):
 
 
 def subst_shape(s, path, v):
+    """shape-level s[path := v]; a missing attribute / dict key at the last step is created (create_new_ok)"""
     if not path:
         return v
     lab = path[0]
     k = s[0]
     if k in ("obj", "frz"):
-        return (k, s[1], tuple((n, subst_shape(c, path[1:], v) if n == lab[1] else c) for n, c in s[2]))
+        kids = tuple((n, subst_shape(c, path[1:], v) if n == lab[1] else c) for n, c in s[2])
+        if len(path) == 1 and all(n != lab[1] for n, _ in s[2]):
+            kids += ((lab[1], v),)
+        return (k, s[1], kids)
     if k == "list":
         return (k, tuple(subst_shape(c, path[1:], v) if i == lab[2] else c for i, c in enumerate(s[1])))
-    return (k, tuple((n, subst_shape(c, path[1:], v) if n == lab[1] else c) for n, c in s[1]))
+    kids = tuple((n, subst_shape(c, path[1:], v) if n == lab[1] else c) for n, c in s[1])
+    if len(path) == 1 and all(n != lab[1] for n, _ in s[1]):
+        kids += ((lab[1], v),)
+    return (k, kids)
+
+
+def node_at(s, path):
+    for lab in path:
+        s = child(s, lab)
+    return s
+
+
+def new_slot_paths(s):
+    """mirror of Heap.tla NewSlotPaths: a new attribute of every object / a new key of every dict on the way (root included)"""
+    out = []
+    for p in [[]] + paths_of(s):
+        k = node_at(s, p)[0]
+        if k in ("obj", "frz"):
+            out.append(p + [["attr", "_new", 0]])
+        elif k in ("dict", "odict"):
+            out.append(p + [["key", "new", 0]])
+    return out
 
 
 VAL_LEAF = ("leaf9",)
@@ -117,8 +142,8 @@ def model_check(ctx):
 
     # (cfg, depth, rich alphabet, number of aliasing variants, label)
     if ctx.quick:
-        runs = [("MC_Heap_q.cfg", 3, False, 2, "all objects of depth<=3 (attr/list/dict mixed), aliased and unaliased, every path (+negative indices), 1 update, the code's copy discipline"),
-                ("MC_Heap_q2.cfg", 2, True, 2, "rich alphabet depth<=2, aliased and unaliased, +negative indices, 2 updates on any held root, path copying")]
+        runs = [("MC_Heap_q.cfg", 3, False, 1, "all objects of depth<=3 (attr/list/dict mixed), every path to an existing slot and every new attribute / new dict key (create_new_ok), 1 update, the code's copy discipline"),
+                ("MC_Heap_q2.cfg", 2, True, 2, "rich alphabet depth<=2, aliased and unaliased, +negative indices, existing and new slots, 2 updates on any held root, path copying")]
     else:
         runs = [("MC_Heap_t.cfg", 3, False, 2, "all trees of depth<=3, aliased and unaliased, +negative indices, every sequence of 2 updates on any held root"),
                 ("MC_Heap_t2.cfg", 3, True, 2, "rich alphabet depth<=3, aliased and unaliased, 1 update, path copying"),
@@ -129,13 +154,14 @@ def model_check(ctx):
         got = _init_count(r)
         if got != want:
             raise MachineryError(f"harness enumerates {want} initial objects for {cfg}, TLC computed {got}: shape enumerations differ")
-    ctx.mc_negative("Heap", "MC_Heap_neg.cfg", workers=2)
+    ctx.mc_negative("Heap", "MC_Heap_neg.cfg", workers=2)     # list step without the copy
+    ctx.mc_negative("Heap", "MC_Heap_neg3.cfg", workers=2)    # lookup of a missing final key inserts a default into the caller's dict
     if not ctx.quick:
-        ctx.mc_negative("Heap", "MC_Heap_neg2.cfg", workers=2)
+        ctx.mc_negative("Heap", "MC_Heap_neg2.cfg", workers=2)  # attribute set on the caller's object
     ctx.assumptions += [
         "object graphs are acyclic (configuration objects); leaves are compared by value, containers by id() and contents",
         "paths through tuples are outside the claim (aset documents attributes, list indices and dict keys)",
-        "create_new_ok=True calls (a slot that does not exist yet) are validated too but reported as drift, not as violations",
+        "create_new_ok=True may create an attribute or a dict key as the LAST step (no list append in the API); paths through a missing slot may raise, the original must stay unchanged",
     ]
 
 
@@ -144,8 +170,8 @@ def _case(cid, shape, share, ops, special=""):
     return {"id": cid, "shape": to_json(shape), "share": share, "ops": ops, "special": special}
 
 
-def _op(root, path, value, create_new=False):
-    return {"root": root, "path": path, "value": to_json(value), "create_new": create_new}
+def _op(root, path, value, create_new=False, invalid=False):
+    return {"root": root, "path": path, "value": to_json(value), "create_new": create_new, "invalid": invalid}
 
 
 def _specials():
@@ -177,12 +203,20 @@ def _specials():
     # slots that do not exist yet (create_new_ok=True): reported as drift only
     out.append(_case("new-key", base, False, [_op(0, [["attr", "b", 0], ["key", "fresh", 0]], VAL_LEAF, True)], "create_new"))
     out.append(_case("new-attr", base, False, [_op(0, [["attr", "a", 0], ["idx", "", 0], ["attr", "_cache", 0]], VAL_LIST, True), _op(1, [["attr", "_top", 0]], VAL_LEAF, True)], "create_new"))
+    out.append(_case("new-key-frozen", frz, False, [_op(0, [["attr", "f", 0], ["idx", "", 1], ["key", "fresh", 0]], VAL_LEAF, True)], "create_new"))
+    demo = ("obj", O, (("a", ("frz", "Frz", (("f", ("dict", (("a", L), ("b", ("list", (L, L)))))), ("g", L)))), ("b", ("dict", (("r", ("dict", (("s", L),))),)))))
+    out.append(_case("new-key-demo1", demo, False, [_op(0, [["attr", "a", 0], ["attr", "f", 0], ["key", "c", 0]], VAL_LEAF, True)], "create_new"))
+    out.append(_case("new-key-demo2", demo, False, [_op(0, [["attr", "b", 0], ["key", "r", 0], ["key", "t", 0]], VAL_LEAF, True),
+                                                    _op(1, [["attr", "b", 0], ["key", "r", 0], ["key", "t", 0]], VAL_LIST, True),
+                                                    _op(0, [["attr", "b", 0], ["key", "r", 0], ["key", "t", 0], ["key", "u", 0]], VAL_LEAF, True, True)], "create_new"))
     # real fdtdx configuration objects
     for p in ([["attr", "recorder", 0], ["attr", "modules", 0], ["idx", "", 0], ["attr", "k", 0]],
               [["attr", "recorder", 0], ["attr", "modules", 0], ["idx", "", -1]],
               [["attr", "recorder", 0], ["attr", "_input_shape_dtypes", 0], ["key", "x", 0]],
               [["attr", "num_checkpoints", 0]]):
         out.append({"id": "fdtdx-gradcfg-" + path_str(p), "builder": "gradcfg", "share": False, "ops": [_op(0, p, VAL_LEAF), _op(1, p, ("float",))], "special": "real fdtdx object"})
+    for p in ([["attr", "recorder", 0], ["attr", "_input_shape_dtypes", 0], ["key", "y", 0]], [["attr", "recorder", 0], ["attr", "_max_time_steps", 0]], [["attr", "_cache", 0]]):
+        out.append({"id": "fdtdx-gradcfg-new-" + path_str(p), "builder": "gradcfg", "share": False, "ops": [_op(0, p, VAL_LEAF, True), _op(1, p, VAL_LIST, True)], "special": "real fdtdx object, create_new"})
     return out
 
 
@@ -197,9 +231,10 @@ def gen_cases(ctx):
                     yield _case(f"A{si}-{int(share)}-{pi}-{vi}", s, share, [_op(0, p, v)])
     # B. base alphabet, depth 3 (the shapes of MC_Heap_q/t): thorough = every shape x every path, quick = seeded sample
     S3 = roots(3, False)
+    S2 = roots(2, True)
     if quick:
         ctx.exhaustive = False
-        for n in range(700):
+        for n in range(450):
             s = S3[rng.randrange(len(S3))]
             P = paths_of(s)
             if not P:
@@ -214,22 +249,55 @@ def gen_cases(ctx):
                 for pi, p in enumerate(paths_of(s)):
                     q = neg_path(s, p) if (si + pi) % 3 == 0 else p
                     yield _case(f"B{si}-{int(share)}-{pi}", s, share, [_op(0, q, VALUES[(si + pi) % 2])])
+    # E. create_new_ok=True: a new attribute of every object / a new key of every dict (root included), mirror of NewSlotPaths
+    for si, s in enumerate(roots(2, True)):
+        for share in (False, True):
+            for pi, p in enumerate(new_slot_paths(s)):
+                for vi, v in enumerate(VALUES):
+                    yield _case(f"E{si}-{int(share)}-{pi}-{vi}", s, share, [_op(0, p, v, True)])
+    for n in range(200 if quick else 6000):
+        s = S3[rng.randrange(len(S3))]
+        P = new_slot_paths(s)
+        p = P[rng.randrange(len(P))]
+        yield _case(f"E3-{n}", s, rng.random() < 0.5, [_op(0, neg_path(s, p[:-1]) + p[-1:] if rng.random() < 0.3 else p, VALUES[rng.randrange(2)], True)])
+    # ... the flag on although the slot exists
+    for n in range(100 if quick else 2000):
+        s = S3[rng.randrange(len(S3))]
+        P = paths_of(s)
+        yield _case(f"Ex-{n}", s, rng.random() < 0.5, [_op(0, P[rng.randrange(len(P))], VALUES[rng.randrange(2)], True)])
+    # F. paths THROUGH a slot that does not exist (with and without create_new_ok), or to a missing slot without the flag:
+    #    aset may raise, the original must stay as it is
+    for n in range(200 if quick else 3000):
+        s = S3[rng.randrange(len(S3))] if rng.random() < 0.7 else S2[rng.randrange(len(S2))]
+        P = new_slot_paths(s)
+        p = P[rng.randrange(len(P))]
+        kind = rng.randrange(3)
+        if kind == 0:
+            yield _case(f"F{n}", s, rng.random() < 0.5, [_op(0, p, VAL_LEAF, False, True)])
+        else:
+            tail = rng.choice(([["key", "z", 0]], [["attr", "q", 0]], [["idx", "", 0]], [["key", "z", 0], ["idx", "", 1]]))
+            yield _case(f"F{n}", s, rng.random() < 0.5, [_op(0, p + tail, VAL_LEAF, kind == 1, True), _op(0, p, VAL_LIST, True)])
     # C. sequences of 2-3 updates on any held root
     S2 = roots(2, True)
-    for n in range(500 if quick else 6000):
+    for n in range(400 if quick else 6000):
         s = S2[rng.randrange(len(S2))] if rng.random() < 0.6 else S3[rng.randrange(len(S3))]
         held = [s]
         ops = []
         for _ in range(rng.choice((2, 2, 3))):
             r = rng.randrange(len(held))
-            P = paths_of(held[r])
+            create = rng.random() < 0.3
+            P = new_slot_paths(held[r]) if create else paths_of(held[r])
             if not P:
                 break
             p = P[rng.randrange(len(P))]
+            if create and rng.random() < 0.5:  # a second new slot next to an earlier one
+                p = p[:-1] + [[p[-1][0], p[-1][1] + str(len(ops)), 0]]
             v = VALUES[rng.randrange(2)]
             vshape = ("leaf",) if v == VAL_LEAF else ("list", (("leaf",),))
+            if create and any(lab == p[-1] for lab, _ in kids_of(node_at(held[r], p[:-1]))):
+                create = False  # the slot was created by an earlier call of this sequence: now an ordinary update
             held.append(subst_shape(held[r], p, vshape))
-            ops.append(_op(r, neg_path(held[r], p) if rng.random() < 0.25 else p, v))
+            ops.append(_op(r, p if create or rng.random() >= 0.25 else neg_path(held[r], p), v, create or rng.random() < 0.2))
         if ops:
             yield _case(f"C{n}", s, rng.random() < 0.5, ops)
     yield from _specials()
@@ -414,7 +482,7 @@ def observe(case):
             raised, err = True, f"{type(ex).__name__}: {ex}"[:200]
         h1 = _snapshot(held + [val] + ([new] if not raised else []), num)
         events.append({"old": num.nid(recv), "new": 0 if raised else num.nid(new), "v": num.nid(val), "path": op["path"], "path_str": path_str(op["path"]),
-                       "raised": raised, "error": err, "create_new": bool(op.get("create_new")), "h0": h0, "h1": h1})
+                       "raised": raised, "error": err, "create_new": bool(op.get("create_new")), "invalid": bool(op.get("invalid")), "h0": h0, "h1": h1})
         if not raised:
             held.append(new)
     n = len(num.ids)
@@ -428,8 +496,9 @@ def observe(case):
 def classify(record, verdict):
     if verdict.startswith("malformed:"):
         return "malformed"
-    # clauses beyond the property's own statement, and calls that create a slot instead of updating one
-    if verdict.startswith(("held:", "value:", "fresh:")) or record.get("any_create_new"):
+    # clauses beyond the property's own statement (calls with create_new_ok=True ARE part of the claim: the original
+    # must not change, and only the addressed - possibly new - slot may differ in the result)
+    if verdict.startswith(("held:", "value:", "fresh:", "model:")):
         return "drift"
     return "violation"
 
